@@ -160,6 +160,8 @@ impl Property for C11 {
         let mut exports = 0usize;
         // a same-key instance that lags behind (the previous generation, not told about later punctures)
         let mut lagging: Option<(pp::Server, BTreeSet<u8>)> = None;
+        // the tag the lagging instance evaluated most recently (its very last operation)
+        let mut lag_last_eval: Option<u8> = None;
         let lag_probe = pp::Point::from(ggm_ref::hash_to_group(b"c11 lagging probe"));
         let export_every = 1 + ctx.ch.index(12);
         let mut generation = 0u32;
@@ -170,6 +172,7 @@ impl Property for C11 {
                 if !lp.contains(&x) {
                     // the lagging instance legitimately still answers for x (it holds the older state) ...
                     let _ = lag.eval(&lag_probe, x, false);
+                    lag_last_eval = Some(x);
                     // ... which must not bring x back for the instance that punctured it
                     if server.eval(&lag_probe, x, false).is_ok() {
                         return Err(Violation::new("c11.punctured_evaluates", "revived_by_lagging_instance", format!("tag {} was punctured on the leader, then evaluated on a lagging same-key instance, and the leader evaluates it again: punctured key material survives outside the key (shared state between instances)", x)));
@@ -203,6 +206,16 @@ impl Property for C11 {
                             // duplicated deliveries import the same state twice
                             let ks: pp::ServerKeyState = bincode::deserialize(&p.bytes).map_err(|e| Violation::new("c11.import", "import", e.to_string()))?;
                             importer.set_private_key(ks);
+                        }
+                        if reuse_lagging {
+                            // the FIRST thing asked of the instance that just caught up is the tag it
+                            // evaluated last while it was lagging (now punctured in the imported state)
+                            if let Some(x) = lag_last_eval.take() {
+                                if punctured.contains(&x) && importer.eval(&lag_probe, x, false).is_ok() {
+                                    return Err(Violation::new("c11.punctured_evaluates", "stale_after_import", format!("an instance that evaluated tag {} while lagging still evaluates it right after importing the state in which it is punctured", x)));
+                                }
+                                ctx.stats.probe("first_request_after_catch_up_checked");
+                            }
                         }
                         let blob2 = bincode::serialize(&importer.get_private_key()).map_err(|e| Violation::new("c11.setup", "export", e.to_string()))?;
                         let st2 = inspect(ctx, &blob2, &punctured, &importer, &format!("importer, {}", when))?;
